@@ -25,7 +25,7 @@ EXPLANATION = ("Provenance and guarded-expression rules over the inlined MIR of 
                "each inlined use is checked for item/direction pairing and extra-flag constants; the item producer is "
                "path-enumerated for readable-before-writable; publication and shadow->device coherence are path/who-writes "
                "queries. Holds for every SIZE/Hal/history because only the polymorphic bodies are inspected.")
-FLOORS = {'share_sites': 1, 'share_contexts': {'def': 3, 'alloc': 3, 'def-rel': 3, 'noalloc': 1}, 'producer_paths': 3,
+FLOORS = {'share_sites': 1, 'share_contexts': 1, 'producer_paths': 2,
           'ring_store': 1, 'idx_store': 1}
 
 NEXT, WRITE, INDIRECT = 1, 2, 4
@@ -55,18 +55,16 @@ def run(F, R):
     flags_ty = [f['ty'] for f in F.adts[M.desc_adt]['variants'][0]['fields'] if f['name'] == flags_field][0]
     for sf in share_fns:
         f1_share_fn(F, R, M, sf, dvars, flags_ty)
-    add_fn = None
-    for b in queue_entry_points(F, M):
-        sg0 = supergraph(F, b['id'], tag='flat', max_depth=0)
-    # the entry point that publishes: contains the avail.idx store
-    pubs = []
-    for b in queue_entry_points(F, M):
-        if not b.get('pub'):
-            continue
+    # the entry points that publish: API methods whose (inlined) graph stores avail.idx and that do not merely wrap
+    # another publishing API method
+    cand = []
+    for b in queue_api_entry_points(F, M):
         sg = supergraph(F, b['id'])
         acc = device_accesses(sg, M)
-        if any(a.kind == 'store' and a.area == 'avail.idx' and sg.nodes[a.node].ctx == 0 for a in acc):
-            pubs.append(b['id'])
+        if any(a.kind == 'store' and a.area == 'avail.idx' for a in acc):
+            cand.append((b['id'], set(c.fn['id'] for c in sg.ctxs[1:])))
+    cand_ids = set(c for c, _ in cand)
+    pubs = [c for c, inl in cand if not (inl & (cand_ids - {c}))]
     if not pubs:
         raise Undecided('no public queue method stores avail.idx')
     for add_id in pubs:
@@ -272,7 +270,7 @@ def f2_producer(F, R, M, pubs, dvars):
     for pid in pubs:
         for c in supergraph(F, pid).ctxs:
             b = c.fn
-            if b.get('impl_trait') == 'core::iter::Iterator' and b['name'] == 'next' and F.handwritten(b):
+            if b.get('impl_trait') == 'core::iter::Iterator' and b['name'] == 'next' and F.handwritten(b) and b['kind'] != 'Closure':
                 ids.add(b['id'])
     prods = [F.bodies[i] for i in sorted(ids)]
     if not prods:
